@@ -732,11 +732,12 @@ def replay(path):
     return 1 if (out.oracle_violations or out.mismatches) else 0
 
 
-SCOPE = ("full for the modelled scope: all 16 theorems of Properties/C06.v are proved for every history of the eleven modelled operations (axiom-free): "
+SCOPE = ("full for the modelled scope: all 18 theorems of Properties/C06.v are proved for every history of the eleven modelled operations (axiom-free): "
          "module balance = sum of live locks; accumulation(>= d) = sum over live locks for every denomination and d >= 0; reference entries exact and every "
          "iterator = definitional filter (store.go composites = concatenation of their iterators, never failing); conservation; owner-only / not-early "
          "(balance growth per operation bounded by the account's own matured locks, force-unlock guarded by owner + allow-list); lawful evolution of every "
-         "lock record (end time set once to block time + duration); split preserves sum/owner/duration with a fresh id. Not modelled: synthetic locks "
+         "lock record (end time set once to block time + duration); per-lock release only when matured, and the trace-level time-lock (release time >= "
+         "begin-unlock block time + duration); split preserves sum/owner/duration with a fresh id. Not modelled: synthetic locks "
          "(C11), multi-coin locks, CL share denominations, the sum-tree behind the accumulation store (C16)")
 EXPLANATION = ("Theorems over the Gallina model C06/Model.v (lockup keeper + msg server + EndBlocker over a small bank, reference indexes as the set of "
                "(structured key, id) store entries, accumulation store as a sorted map) by invariants over operation histories with monotone block times. "
